@@ -290,18 +290,52 @@ impl Net {
                     Some(x) => x,
                     None => return "bad-op no-sock".into(),
                 };
-                let r = self.rt.block_on(async {
-                    match &mut sock {
-                        Sock::Pub(x) => x.bind(&target).await,
-                        Sock::Sub(x) => x.bind(&target).await,
-                        Sock::Req(x) => x.bind(&target).await,
-                        Sock::Rep(x) => x.bind(&target).await,
-                        Sock::Dealer(x) => x.bind(&target).await,
-                        Sock::Router(x) => x.bind(&target).await,
-                        Sock::Pull(x) => x.bind(&target).await,
-                        Sock::Push(x) => x.bind(&target).await,
-                        Sock::XPub(x) => x.bind(&target).await,
+                async fn bind_one(sock: &mut Sock, target: &str) -> ZmqResult<Endpoint> {
+                    match sock {
+                        Sock::Pub(x) => x.bind(target).await,
+                        Sock::Sub(x) => x.bind(target).await,
+                        Sock::Req(x) => x.bind(target).await,
+                        Sock::Rep(x) => x.bind(target).await,
+                        Sock::Dealer(x) => x.bind(target).await,
+                        Sock::Router(x) => x.bind(target).await,
+                        Sock::Pull(x) => x.bind(target).await,
+                        Sock::Push(x) => x.bind(target).await,
+                        Sock::XPub(x) => x.bind(target).await,
                     }
+                }
+                async fn unbind_one(sock: &mut Sock, ep: Endpoint) -> ZmqResult<()> {
+                    match sock {
+                        Sock::Pub(x) => x.unbind(ep).await,
+                        Sock::Sub(x) => x.unbind(ep).await,
+                        Sock::Req(x) => x.unbind(ep).await,
+                        Sock::Rep(x) => x.unbind(ep).await,
+                        Sock::Dealer(x) => x.unbind(ep).await,
+                        Sock::Router(x) => x.unbind(ep).await,
+                        Sock::Pull(x) => x.unbind(ep).await,
+                        Sock::Push(x) => x.unbind(ep).await,
+                        Sock::XPub(x) => x.unbind(ep).await,
+                    }
+                }
+                let wildcard = matches!(w[2], "tcp4" | "tcp6" | "localhost");
+                let known = self.eps.clone();
+                let r = self.rt.block_on(async {
+                    let mut r = bind_one(&mut sock, &target).await;
+                    // The OS may hand a wildcard bind the port of an endpoint this case has unbound earlier (a
+                    // DIFFERENT endpoint value, e.g. localhost:P vs 127.0.0.1:P, or the same one): the ids of the
+                    // case would then alias one listener. Keep that port occupied, take another, release the first.
+                    for _ in 0..4 {
+                        let clash = match &r {
+                            Ok(Endpoint::Tcp(_, p)) if wildcard => known.iter().any(|k| matches!(k, Endpoint::Tcp(_, q) if q == p)),
+                            _ => false,
+                        };
+                        if !clash {
+                            break;
+                        }
+                        let first = r.unwrap();
+                        r = bind_one(&mut sock, &target).await;
+                        let _ = unbind_one(&mut sock, first).await;
+                    }
+                    r
                 });
                 self.socks.insert(s, sock);
                 match r {
@@ -430,6 +464,93 @@ impl Net {
                         tokio::time::sleep(Duration::from_millis(10)).await;
                     }
                 })
+            }
+            // connectout <s> <tr> <c> <peertype>: the socket CONNECTS OUT to a raw listener (tcp4 | ipc) created for
+            // this op; the raw side accepts, sends greeting + READY of <peertype> and becomes raw connection <c>.
+            // Prints the result of `connect()` and whether the raw side saw the library's greeting + READY.
+            "connectout" => {
+                let s = num(1).unwrap();
+                let c = num(3).unwrap();
+                let ptype = w[4].to_string();
+                let mut sock = match self.socks.remove(&s) {
+                    Some(x) => x,
+                    None => return "bad-op no-sock".into(),
+                };
+                enum L {
+                    Tcp(tokio::net::TcpListener),
+                    Unix(tokio::net::UnixListener),
+                }
+                let _g = self.rt.enter();
+                let (lst, target) = match w[2] {
+                    "ipc" => {
+                        self.nipc += 1;
+                        let path = self.dir.join(format!("r{}", self.nipc));
+                        match tokio::net::UnixListener::bind(&path) {
+                            Ok(l) => (L::Unix(l), format!("ipc://{}", path.display())),
+                            Err(_) => return "bad-op rawlisten".into(),
+                        }
+                    }
+                    _ => {
+                        let l = match self.rt.block_on(tokio::net::TcpListener::bind("127.0.0.1:0")) {
+                            Ok(l) => l,
+                            Err(_) => return "bad-op rawlisten".into(),
+                        };
+                        let port = l.local_addr().unwrap().port();
+                        (L::Tcp(l), format!("tcp://127.0.0.1:{}", port))
+                    }
+                };
+                drop(_g);
+                let (r, raw) = self.rt.block_on(async {
+                    let conn = async {
+                        let f = async {
+                            match &mut sock {
+                                Sock::Pub(x) => x.connect(&target).await,
+                                Sock::Sub(x) => x.connect(&target).await,
+                                Sock::Req(x) => x.connect(&target).await,
+                                Sock::Rep(x) => x.connect(&target).await,
+                                Sock::Dealer(x) => x.connect(&target).await,
+                                Sock::Router(x) => x.connect(&target).await,
+                                Sock::Pull(x) => x.connect(&target).await,
+                                Sock::Push(x) => x.connect(&target).await,
+                                Sock::XPub(x) => x.connect(&target).await,
+                            }
+                        };
+                        match tokio::time::timeout(pos_deadline(), f).await {
+                            Err(_) => {
+                                note_expired();
+                                "none".to_string()
+                            }
+                            Ok(Ok(())) => "ok".to_string(),
+                            Ok(Err(e)) => format!("err {}", err_class(&format!("{:?}", e))),
+                        }
+                    };
+                    let accept = async {
+                        let io = match &lst {
+                            L::Tcp(l) => tokio::time::timeout(pos_deadline(), l.accept()).await.ok().and_then(|r| r.ok()).map(|(st, _)| Raw::Tcp(st)),
+                            L::Unix(l) => tokio::time::timeout(pos_deadline(), l.accept()).await.ok().and_then(|r| r.ok()).map(|(st, _)| Raw::Unix(st)),
+                        };
+                        match io {
+                            None => None,
+                            Some(io) => {
+                                let mut rc = RawConn { io, inbuf: vec![], eof: false };
+                                let mut out = greeting();
+                                out.extend(ready(&ptype));
+                                let _ = rc.io.write_all(&out).await;
+                                let ok = Net::read_until(&mut rc, pos_deadline(), |c| c.inbuf.len() > 66 && c.inbuf.len() >= 66 + c.inbuf[65] as usize).await;
+                                Some((rc, ok))
+                            }
+                        }
+                    };
+                    tokio::join!(conn, accept)
+                });
+                self.socks.insert(s, sock);
+                match raw {
+                    Some((rc, ok)) => {
+                        self.raws.insert(c, rc);
+                        format!("{} raw={}", r, if ok { "hs-ok" } else { "no-ready" })
+                    }
+                    None => format!("{} raw=none", r),
+                }
             }
             "rawconn" => {
                 let c = num(1).unwrap();
